@@ -4,6 +4,10 @@
 //! `verif_merge_chunks`, `verif_insert_in_array`; feature `verif-hooks`); nothing here computes an expected
 //! result, outputs are whatever the real witness generation produced.
 //!
+//! Circuit configuration as in the repository's own tests of the gadget: `VarLenSha256Gadget` from scratch (it owns a
+//! private native gadget) plus a second native gadget, configured from scratch on its own columns, for the caller's
+//! side (vector / byte assignment, exposing cells); both tables are loaded. k = 13 (the SHA spread table).
+//!
 //!   cx sha256pad op=padding p.M=<64|128|256> [p.filler=<byte>] in=<len>:<b0>:..:<b(M-1)>
 //!        The input vector `AssignedVector<F, AssignedByte<F>, M, 64>` is created by the real
 //!        `VectorGadget::assign` (`assign_with_filler` when p.filler is given) from the first <len> slots,
@@ -131,7 +135,11 @@ fn insert<const L: usize>(s: &Spec, io: &Io, sha: &SHA, ng: &NG, l: &mut impl La
 }
 
 impl Circuit<F> for PadCircuit {
-    type Config = <SHA as FromScratch<F>>::Config;
+    /// As in the repository's own tests of the gadget: the SHA-256 chip (which owns a private native gadget)
+    /// and a second, independently configured native gadget for the caller's side (vector assignment, byte
+    /// assignment, exposing cells). The two cannot share one configuration from outside the crate: a
+    /// `Pow2RangeChip` loads only the range tags IT has seen queried, and the chip's own gadget is private.
+    type Config = (<SHA as FromScratch<F>>::Config, <NG as FromScratch<F>>::Config);
     type FloorPlanner = SimpleFloorPlanner;
     type Params = ();
     fn without_witnesses(&self) -> Self {
@@ -140,11 +148,13 @@ impl Circuit<F> for PadCircuit {
     fn configure(meta: &mut ConstraintSystem<F>) -> Self::Config {
         let ci = meta.instance_column();
         let i = meta.instance_column();
-        <SHA as FromScratch<F>>::configure_from_scratch(meta, &[ci, i])
+        (
+            <SHA as FromScratch<F>>::configure_from_scratch(meta, &[ci, i]),
+            <NG as FromScratch<F>>::configure_from_scratch(meta, &[ci, i]),
+        )
     }
     fn synthesize(&self, config: Self::Config, mut layouter: impl Layouter<F>) -> Result<(), Error> {
-        let sha = <SHA as FromScratch<F>>::new_from_scratch(&config);
-        // a handle on the SAME native gadget the SHA chip uses (same columns, same configuration)
+        let sha = <SHA as FromScratch<F>>::new_from_scratch(&config.0);
         let ng = <NG as FromScratch<F>>::new_from_scratch(&config.1);
         self.io.0.borrow_mut().clear();
         let io = Io { io: self.io.clone() };
@@ -171,7 +181,8 @@ impl Circuit<F> for PadCircuit {
             },
             op => panic!("unknown sha256pad op {op}"),
         }
-        sha.load_from_scratch(&mut layouter)
+        sha.load_from_scratch(&mut layouter)?;
+        ng.load_from_scratch(&mut layouter)
     }
 }
 
